@@ -22,6 +22,8 @@ ops
   `mut <i> <mutator>` with mutator one of
      `setid <id>` `settags [k=v …]` `addtag k=v` `settag k=v` `rmtag k` `rmtags [k …]` `rmall`
      `setpathids <i> [id …]` `setpathid <i> <j> <id>` `setpoly <i> <P|->`
+     `setat <k> <idx> <e>` (ModifyOrAddTagAt) `setlist <k> <spare> [e …]` (ModifyOrAddTag of a list value built
+     with spare capacity); a list-valued tag is rendered `k=<e,e,e>`
      `setmember <i> <id>/<role>` `appmember <id>/<role>` `setkey <i> <k>` `setval <i> <v>` `appkv <k> <v>` `sort`
 
 Verdict.  The property predicate is evaluated on the implementation's own answers (previous line vs this
@@ -41,31 +43,37 @@ def parseKind : String → Option Kind
   | "relation" => some .relation | "collection" => some .collection
   | _ => none
 
-def renderPair (sep : String) : Cell → String
+def renderPair (vals : Vals) (sep : String) : Cell → String
   | .pair a b => a ++ sep ++ b
   | .scalar s => "?" ++ s
+  | .ltag k h =>
+    -- a list-valued tag: `k=<e,e,e>`
+    match resolveV vals h with
+    | some xs => k ++ sep ++ "<" ++ ",".intercalate xs ++ ">"
+    | none => k ++ sep ++ "<dangling>"
 
 def renderScalar : Cell → String
   | .scalar s => if s == "" then "-" else s
   | .pair a b => "?" ++ a ++ "," ++ b
+  | .ltag k _ => "?" ++ k
 
 def renderIds (l : List (Option (List Cell))) : String :=
   renderList (l.map fun
     | none => "-"
     | some cs => "(" ++ " ".intercalate (cs.map renderScalar) ++ ")")
 
-def renderView (v : View) : String :=
-  let head := kindLetter v.kind ++ ":" ++ v.id ++ " t" ++ renderList (v.tags.map (renderPair "="))
+def renderView (vals : Vals) (v : View) : String :=
+  let head := kindLetter v.kind ++ ":" ++ v.id ++ " t" ++ renderList (v.tags.map (renderPair vals "="))
   match v.kind with
   | .generic => head
   | .area => head ++ " i" ++ renderIds v.ids ++ " p" ++ renderList (v.polygons.map renderScalar)
-  | .relation => head ++ " m" ++ renderList (v.members.map (renderPair "/"))
+  | .relation => head ++ " m" ++ renderList (v.members.map (renderPair vals "/"))
   | .collection => head ++ " k" ++ renderList (v.keys.map renderScalar) ++ " v"
       ++ renderList (v.values.map renderScalar) ++ " s=" ++ (if v.sorted then "1" else "0")
 
-def renderFeat (st : Store) (f : Feat) : String :=
+def renderFeat (st : Store) (vals : Vals) (f : Feat) : String :=
   match view st f with
-  | some v => renderView v
+  | some v => renderView vals v
   | none => "dangling"
 
 def insertSorted (x : String) : List String → List String
@@ -79,7 +87,8 @@ def joinEntries (l : List String) : String := if l.isEmpty then "-" else " ; ".i
 def splitEntries (s : String) : List String := if s == "-" then [] else s.splitOn " ; "
 
 def renderState (s : State) : String × String :=
-  (joinEntries (sortStrings (s.world.map (renderFeat s.st))), joinEntries (s.vars.map (renderFeat s.st)))
+  (joinEntries (sortStrings (s.world.map (renderFeat s.st s.vals))),
+   joinEntries (s.vars.map (renderFeat s.st s.vals)))
 
 /-- the key `<k>:<id>` of a rendered feature -/
 def entryKey (e : String) : String := (words e).headD ""
@@ -125,6 +134,10 @@ def parseOp (op : String) : Option Op :=
   | ["wtag", kind, id, kv] => (parseKind kind).bind fun k => (parseKV kv).map fun p => .wtag k id p.1 p.2
   | ["wrm", kind, id, k] => (parseKind kind).map fun kd => .wrm kd id k
   | ["fromworld", kind, id] => (parseKind kind).map fun k => .fromWorld k id
+  | ["mut", i, "setat", k, idx, e] => i.toNat?.bind fun i => idx.toNat?.map fun j => .updV i (.setTagAt k j e)
+  | "mut" :: i :: "setlist" :: k :: spare :: rest =>
+    i.toNat?.bind fun i => spare.toNat?.bind fun sp =>
+      (parseBracket (" ".intercalate rest)).map fun l => .updV i (.setTagList k l sp)
   | "mut" :: i :: rest => i.toNat?.bind fun i => (parseMut rest).map fun m => .upd i m
   | _ => none
 
@@ -159,7 +172,7 @@ def predicate (st : St) (op : Op) (status : String) (world vars : List String) :
     then some "isolation"
     else if (vars.getLast?.map fun v => [v]) == some (world.filter (entryKey · == kindLetter k ++ ":" ++ id))
     then none else some "copy"
-  | .upd i _ | .merge i _ =>
+  | .upd i _ | .updV i _ | .merge i _ =>
     if world == st.world && vars.length == st.vars.length && dropAt vars i == dropAt st.vars i
     then none else some "isolation"
   | .add i =>
